@@ -27,7 +27,7 @@ RULE = ('cases are accepted route configurations (as C01) crossed with two reque
         'PYTHONHASHSEED')
 ASSUMPTIONS = ['one name is never defined by both an application-level and a route-level resource here (C10 covers precedence)',
                'which of several applications is "the application" for an embedded route: the serving (outermost) one']
-REQUIRED_REACH = ['constructed', 'requests-on-accepted', 'src:default:def', 'src:default:kwdef', 'src:resource:req',
+REQUIRED_REACH = ['decoy-routes-passed-over', 'prefix-bindings-injected', 'constructed', 'requests-on-accepted', 'src:default:def', 'src:default:kwdef', 'src:resource:req',
                   'src:resource:kwreq', 'src:provided:req', 'src:provided:kwdef', 'src:request:req', 'src:application:req',
                   'src:dispatch_state:req', 'src:ctx:req', 'src:value:req', 'src:route:req', 'src:next:req']
 HASHSEEDS_Q = [0, 1, 2, 3, 4, 5, 6, 7]
@@ -100,7 +100,7 @@ def run_shard(sh, spec):
     fixed = Rng(spec['seed'], PROPERTY, 'fixed-part')
     digests = []
     for i in range(spec['n_fixed']):
-        cfg = gen_di.gen_config(fixed, {'deviate': 0.0, 'posonly': False})
+        cfg = gen_di.gen_config(fixed, {'deviate': 0.0, 'posonly': False, 'decoys': True})
         del _captured[:]
         drive(sh, PROPERTY, cfg, 'fixed')
         digests.append(hashlib.sha1('\x00'.join(_captured).encode('utf8')).hexdigest()[:12])
@@ -108,7 +108,7 @@ def run_shard(sh, spec):
     # part 2: this shard's own configurations
     rng = Rng(spec['seed'], PROPERTY, spec['label'])
     for i in range(spec['n']):
-        cfg = gen_di.gen_config(rng, {'deviate': rng.pick([0.0, 0.0, 0.02, 0.05]), 'posonly': False, 'p_nested': 0.3})
+        cfg = gen_di.gen_config(rng, {'deviate': rng.pick([0.0, 0.0, 0.02, 0.05]), 'posonly': False, 'p_nested': 0.3, 'decoys': True})
         drive(sh, PROPERTY, cfg, 'random')
 
 
